@@ -99,6 +99,14 @@ let run (args : (string * string) list) : string =
             | Some x -> string_of_int (int_of_nat x) | None -> "none") radials) ^ ")");
       if rok <> [] then add "rv" (ok (List.exists (fun r -> check_rv s.dm r o) rok))
     end;
+    (* the hypothesis of C16_symm_exit_exact (not proved in general): the radius of the radial
+       set run_symm uses, a largest connected component, is at most n/2 *)
+    if sym && wants_rad l then begin
+      let n = List.length s.g in
+      let ef = eccs_f s.dm in
+      add "symhyp" (ok (List.for_all (fun r -> match radius_from ef r with
+          | Some x -> int_of_nat x <= n / 2 | None -> true) radials))
+    end;
     (* schedule independence: same values, counters and step sequence on every pool *)
     if !seen_graph <> gs then begin Hashtbl.reset seen; seen_graph := gs end;
     let key = String.concat " " [string_of_bool sym; rad; lvl; get args "tot"] in
@@ -110,22 +118,26 @@ let run (args : (string * string) list) : string =
      | Some (s0, rv0) ->
        add "sched" (if s0 = signature then "ok" else "FAIL(differs-from-first-pool)");
        add "schedrv" (if rv0 = rv then "ok" else "FAIL(" ^ rv0 ^ "/" ^ rv ^ ")"));
-    (* correspondence: replay of the logged visits on the abstract machine (runs without an
-       SCC refinement step); every reported value and iteration counter must agree *)
+    (* correspondence: replay of the logged steps on the abstract machine; every reported
+       value and iteration counter must agree.  Visits are replayed for both variants; the
+       SCC refinement step ("A") is modelled for run_symm only, with the pivots of the model
+       of find_best_pivot: directed runs with an "A" step are not replayed *)
     let steps = split_on ',' (get args "steps") in
-    if not (List.mem "A" steps) && steps <> [] then begin
+    let has_a = List.mem "A" steps in
+    if steps <> [] && (not has_a || sym) then begin
       let n = List.length s.g in
       let order = List.init n nat_of_int in
       let op_of t =
         let v = nat_of_int (int_of_string (String.sub t 2 (String.length t - 2))) in
-        if t.[0] = 'F' then OFwd v else OBwd (v, order) in
-      let heur = List.map op_of (List.filter (fun t -> t.[1] = 'i') steps) in
-      let loop = List.map op_of (List.filter (fun t -> t.[1] <> 'i') steps) in
+        if t.[0] = 'F' then OFwd (v, order) else OBwd (v, order) in
+      let heur = List.map op_of (List.filter (fun t -> t <> "A" && t.[1] = 'i') steps) in
+      let loop = List.map (fun t -> if t = "A" then LA order else LO (op_of t))
+          (List.filter (fun t -> t = "A" || t.[1] <> 'i') steps) in
       let cmp_opt k (c : nat option) = match get_opt args k with
         | None -> true
         | Some v -> (match c with Some x -> int_of_nat x = int_of_string v | None -> false) in
       let one radial =
-        let (okf, (c, mo)) = run_logged_dm sym s.dm (nat_of_int n) radial heur loop l in
+        let (okf, (c, mo)) = run_logged_dm sym (get args "tot" = "1") s.dm (nat_of_int n) radial heur loop l in
         let vals =
           okf
           && (not (wants_eccf l) || mo.o_eccf = eccf)
@@ -135,7 +147,7 @@ let run (args : (string * string) list) : string =
           && cmp_opt "ri" c.c_ri && cmp_opt "di" c.c_di && cmp_opt "fi" c.c_fi && cmp_opt "ai" c.c_ai in
         (vals, (not (wants_rad l)) || mo.o_rv = o.o_rv) in
       let rs = List.map one radials in
-      add "replay" (ok (List.exists fst rs));
+      add (if has_a then "replaya" else "replay") (ok (List.exists fst rs));
       if List.exists fst rs then add "replayrv" (ok (List.exists (fun (a, b) -> a && b) rs))
     end;
     Buffer.contents res
